@@ -236,6 +236,9 @@ func GenAction(t *rapid.T, p *Profile, cfg *Config, ops []string) Action {
 		a.N = rapid.IntRange(-1, 1).Draw(t, "delta")
 	case "runtasks":
 		a.N = rapid.IntRange(1, 4).Draw(t, "ntasks")
+	case "readburst":
+		a.N = rapid.IntRange(17, 120).Draw(t, "nreads")
+		a.Sel = rapid.IntRange(0, 4).Draw(t, "stride")
 	case "burst":
 		a.N = rapid.IntRange(2050, 2300).Draw(t, "nburst")
 		a.Sel = rapid.IntRange(0, 59).Draw(t, "span")
@@ -259,7 +262,7 @@ func expandOps(p *Profile, cfg *Config) []string {
 	order := []string{"set", "setifabsent", "getifpresent", "getentry", "getentryquietly", "compute", "computeifabsent",
 		"computeifpresent", "invalidate", "invalidateall", "setexpiresafter", "setrefreshableafter", "get", "bulkget",
 		"refresh", "bulkrefresh", "iter", "setmaximum", "getmaximum", "cleanup", "advance", "advanceto", "runtasks",
-		"quiesce", "saveload", "burst"}
+		"quiesce", "saveload", "burst", "readburst"}
 	var out []string
 	for _, op := range order {
 		w := p.Ops[op]
